@@ -79,7 +79,7 @@ def _retarget(t, boff):
         t["otherwise"] += boff
 
 
-def eligible(prog, f, c, keep, max_blocks, stack):
+def eligible(prog, f, c, keep, max_blocks, stack, allow_pub=False):
     tgt = c.resolved or c.path
     if not tgt or tgt in stack:
         return None
@@ -92,7 +92,7 @@ def eligible(prog, f, c, keep, max_blocks, stack):
     elif tgt in keep or tgt.split("::")[-1] in keep:
         return None
     g = prog.fns.get(tgt)
-    if g is None or g is f or g.crate != f.crate or g.is_pub or g.kind == "closure":
+    if g is None or g is f or g.crate != f.crate or (g.is_pub and not allow_pub) or g.kind == "closure":
         return None
     if g.nblocks > max_blocks or len(c.args) != g.argc:
         return None
@@ -101,21 +101,21 @@ def eligible(prog, f, c, keep, max_blocks, stack):
     return g
 
 
-def view(prog, f, keep=None, depth=2, max_blocks=40, _stack=None):
+def view(prog, f, keep=None, depth=2, max_blocks=40, _stack=None, allow_pub=False):
     """f with its eligible callees inlined (a new Fn; f itself is returned when nothing was inlined)"""
     cache = prog.__dict__.setdefault("_inline_cache", {})
-    key = (f.key if hasattr(f, "key") else f.path, None if keep is None else (id(keep) if callable(keep) else tuple(sorted(keep))), depth, max_blocks)
+    key = (f.key if hasattr(f, "key") else f.path, None if keep is None else (id(keep) if callable(keep) else tuple(sorted(keep))), depth, max_blocks, allow_pub)
     if _stack is None and key in cache:
         return cache[key]
     stack = (_stack or ()) + (f.path,)
     raw = None
     inlined = []
     for c in f.calls():
-        g = eligible(prog, f, c, keep if (keep is None or callable(keep)) else set(keep), max_blocks, stack)
+        g = eligible(prog, f, c, keep if (keep is None or callable(keep)) else set(keep), max_blocks, stack, allow_pub)
         if g is None:
             continue
         if depth > 1:
-            g = view(prog, g, keep, depth - 1, max_blocks, stack)
+            g = view(prog, g, keep, depth - 1, max_blocks, stack, allow_pub)
         if raw is None:
             raw = copy.deepcopy(f.raw)
         base = len(raw["locals"])
